@@ -315,6 +315,13 @@ void run_case(const uint8_t *data, size_t size, CaseCtx &ctx) {
   crab::CrabWarningFlag = false;
   crab::domains::crab_domain_params_man::get() = crab::domains::crab_domain_params();
 
+  // ---- parameters (decoded first so that a long program cannot starve them) -----------
+  unsigned nstages = 1 + t.pick(3);
+  std::vector<unsigned> kinds;
+  for (unsigned i = 0; i < nstages; i++)
+    kinds.push_back(t.pick(3));
+  unsigned ninit = 2 + t.pick(3);
+
   // ---- program ---------------------------------------------------------------------
   unsigned caps = CAP_ARITH | CAP_BITWISE | CAP_CAST | CAP_BOOL | CAP_SELECT | CAP_HAVOC | CAP_UNREACHABLE | CAP_ASSERT |
                   CAP_NONLINEAR | CAP_DISEQ | CAP_UNSTRUCTURED;
@@ -340,11 +347,6 @@ void run_case(const uint8_t *data, size_t size, CaseCtx &ctx) {
   if (fp.prog.n_loops) R().cls("has_loop");
 
   // ---- stages -----------------------------------------------------------------------------
-  unsigned nstages = 1 + t.pick(3);
-  std::vector<unsigned> kinds;
-  for (unsigned i = 0; i < nstages; i++)
-    kinds.push_back(t.pick(3));
-  unsigned ninit = 2 + t.pick(3);
   std::vector<State> inits;
   for (unsigned i = 0; i < ninit; i++)
     inits.push_back(initial_state(t, fp));
